@@ -2,6 +2,11 @@ NOTES = ("All checks: ./check <ID> --tier quick|thorough, VERIF_SEED respected, 
          "fix: commits in /repo are listed in known_findings.json as fixed entries.")
 NOT_APPLICABLE = {}
 CHECKS = {
+ "C04": {
+  "technique": "Hypothesis property-based testing over real pytest sessions with an independent flag-resolution model (from the docs), a differential against a plain-flags reference session, the category model for values, plus an exhaustive 16 x 5 flag/mode grid",
+  "text": "Generated configurations (CLI, shortcuts incl. user-defined, env var, pyproject defaults, tty, CI variables, PYCHARM_HOSTED, xdist -n 2 / -n 0, review answers, xfail markers) x generated programs with an external site and an unreferenced persisted external; sessions that approve nothing must leave test files and persisted externals byte-identical, usage errors exit 4, approved sets must give exactly the files of a plain --inline-snapshot=<F> reference run and the values of the category model. The 80-cell subset x mode grid is enumerated exhaustively on a fixed six-site program. Exploration.",
+  "note": "tty approximated by FORCE_COLOR; review answers are mapped to categories through the prompts actually printed; -new storage files and the storage .gitignore are not protected objects",
+ },
  "C07": {
   "technique": "Hypothesis property-based testing over real pytest subprocess sessions; oracle from junit outcomes and exit status against generator-assigned site statuses, executed sites observed through side-file markers",
   "text": "Generated files (1-4 tests x 1-4 sites, statuses ok/wrong/missing, five operations, loops with a late wrong iteration, shared module-level sites) are run with every flag combination (category subsets alone or with report/review/short-report, no flags, disable); a test that executed a bad site must be failed/errored with non-zero exit status, all others passed. Exploration.",
